@@ -235,4 +235,29 @@ def reduce_case(case):
         yield dict(case, plain_tail=None)
 
 
-SUBS = [Sub("batch-free-programs", check, strategy=strategy, reduce=reduce_case, examples={"quick": 3000, "thorough": 100000})]
+def sizes(tier):
+    from ..e1 import wide
+    return [{"wide": sp, "entry": e, "plain_tail": None} for sp in wide.specs(["tuple-consts-batchfree", "list-consts-batchfree"], True) for e in ("function", "method")]
+
+
+def check_sizes(case, ctx):
+    from ..e1 import wide
+    out = check(dict(case, prog=wide.expand(case["wide"])), _Quiet(ctx, case))
+    return [(s, "%r: %s" % (case["wide"], m[:500])) for s, m in out]
+
+
+class _Quiet(object):
+    def __init__(self, ctx, case):
+        self.ctx = ctx
+        self.case = case
+
+    def label(self, *a, **k):
+        pass
+
+    def nontrivial(self, case, on=True):
+        self.ctx.label("wide:" + self.case["wide"]["shape"])
+        self.ctx.nontrivial(self.case)
+
+
+SUBS = [Sub("batch-free-programs", check, strategy=strategy, reduce=reduce_case, examples={"quick": 3000, "thorough": 100000}),
+        Sub("sizes", check_sizes, enumerate=sizes)]
